@@ -112,14 +112,26 @@ func (v *collator_[V]) GetMaximum() int {
 // Public
 
 func (v *collator_[V]) CompareValues(first V, second V) bool {
+	defer v.resetDepthOnPanic()
 	return v.compareValues(ref.ValueOf(first), ref.ValueOf(second))
 }
 
 func (v *collator_[V]) RankValues(first V, second V) Rank {
+	defer v.resetDepthOnPanic()
 	return v.rankValues(ref.ValueOf(first), ref.ValueOf(second))
 }
 
 // Private
+
+// This private instance method restores the traversal depth when a comparison
+// or ranking is abandoned by a panic (for example the maximum depth panic), so
+// that this collator remains usable for later calls.
+func (v *collator_[V]) resetDepthOnPanic() {
+	if r := recover(); r != nil {
+		v.depth_ = 0
+		panic(r)
+	}
+}
 
 func (v *collator_[V]) compareArrays(first ref.Value, second ref.Value) bool {
 	// Check for maximum traversal depth.
